@@ -50,11 +50,11 @@ func runCycleSample(seed int64, index int, recs []*PodRecord, mutated map[string
 			if !r.Adm.Accepted || !r.sharing || mutated[r.In.Name] == nil {
 				continue
 			}
-			odd := !r.valid || !r.Sched.Shared
+			odd := !r.valid || !r.Sched.Shared || len(r.fs) > 0
 			if (pass == 0) != odd {
 				continue
 			}
-			if pass == 0 && len(pick) >= 3 {
+			if pass == 0 && len(pick) >= 4 {
 				continue
 			}
 			if !odd && (r.expDev < 1 || r.expDev > 4 || r.expMem > nodeGPUMem) {
@@ -122,6 +122,7 @@ func runCycleSample(seed int64, index int, recs []*PodRecord, mutated map[string
 			continue
 		}
 		placed[r.In.Name] = true
+		r.CycleOutcome = "placed"
 		res.Placed = append(res.Placed, r.In.Name)
 		view := env.bind(mutated[r.In.Name], br, true)
 		view.FromCycle = true
@@ -129,6 +130,7 @@ func runCycleSample(seed int64, index int, recs []*PodRecord, mutated map[string
 	}
 	for _, r := range pick {
 		if !placed[r.In.Name] {
+			r.CycleOutcome = "unplaced"
 			res.Unplaced = append(res.Unplaced, fmt.Sprintf("%s%v", r.In.Name, r.In.Ann))
 		}
 	}
